@@ -71,6 +71,20 @@ func (h *DirHandler) OutboxCount() int  { return countFiles(path.Join(h.MBoxPath
 func (h *DirHandler) SentCount() int    { return countFiles(path.Join(h.MBoxPath, DIR_SENT)) }
 func (h *DirHandler) ArchiveCount() int { return countFiles(path.Join(h.MBoxPath, DIR_ARCHIVE)) }
 
+// validMID reports whether mid can safely be used as the base name of a
+// file in one of the mailbox directories.
+//
+// The MID of an inbound message (and proposal) is chosen by the remote
+// station. It must never be able to address a file outside of the mailbox,
+// so anything that is not a plain file name is refused.
+func validMID(mid string) bool {
+	switch mid {
+	case "", ".", "..":
+		return false
+	}
+	return !strings.ContainsAny(mid, "/\\\x00")
+}
+
 func (h *DirHandler) AddOut(msg *fbb.Message) error {
 	data, err := msg.Bytes()
 	if err != nil {
@@ -83,6 +97,9 @@ func (h *DirHandler) AddOut(msg *fbb.Message) error {
 func (h *DirHandler) ProcessInbound(msgs ...*fbb.Message) (err error) {
 	dir := path.Join(h.MBoxPath, DIR_INBOX)
 	for _, m := range msgs {
+		if !validMID(m.MID()) {
+			return fmt.Errorf("Unable to write received message: invalid MID %q", m.MID())
+		}
 		filename := path.Join(dir, m.MID()+Ext)
 
 		m.Header.Set("X-Unread", "true")
@@ -104,6 +121,13 @@ func (h *DirHandler) GetInboundAnswer(p fbb.Proposal) fbb.ProposalAnswer {
 		return fbb.Defer
 	}
 
+	// We are not able to store a message with such a MID. Defer it rather
+	// than claiming to already have it.
+	if !validMID(p.MID()) {
+		log.Printf("Deferring proposal with invalid MID %q", p.MID())
+		return fbb.Defer
+	}
+
 	// Check if file exists
 	f, err := os.Open(path.Join(h.MBoxPath, DIR_INBOX, p.MID()+Ext))
 	if err == nil {
@@ -119,6 +143,11 @@ func (h *DirHandler) GetInboundAnswer(p fbb.Proposal) fbb.ProposalAnswer {
 }
 
 func (h *DirHandler) SetSent(MID string, rejected bool) {
+	if !validMID(MID) {
+		log.Printf("Unable to mark %q as sent: invalid MID", MID)
+		return
+	}
+
 	oldPath := path.Join(h.MBoxPath, DIR_OUTBOX, MID+Ext)
 	newPath := path.Join(h.MBoxPath, DIR_SENT, MID+Ext)
 
